@@ -349,7 +349,7 @@ def rewrite_map(tid, ops, n0, n1, n2, *vals):
 
 
 def add_axis(rid, n0, m, v0, v1, v2, v3, v4, v5):
-    """add_mapspec_axis(p, axis=k) lifts the pipeline pointwise"""
+    """add_mapspec_axis(p, axis=k) lifts the pipeline pointwise (m = 1: after renaming the lifted input)"""
     L.reset()
     t = R[rid]
     n0 = L.concretize(n0, 1, 3)
@@ -360,11 +360,15 @@ def add_axis(rid, n0, m, v0, v1, v2, v3, v4, v5):
         out = t[-1].outputs[0]
         roots = list(p.root_args(out))
         lifted = roots[0]
-        q.add_mapspec_axis(lifted, axis="k")
+        lifted_q = lifted
+        if m:
+            lifted_q = lifted + "_r"
+            q.update_renames({lifted: lifted_q})
+        q.add_mapspec_axis(lifted_q, axis="k")
         runt.warm(p, out)
     arr = [v0, v1, v2][:n0]
     others = {a: x for a, x in zip(roots[1:], (v3, v4, v5))}
-    res = q.map({lifted: arr, **others}, storage="dict", parallel=False)
+    res = q.map({lifted_q: arr, **others}, storage="dict", parallel=False)
     prod = runt.producers(t)
 
     def depends(name):
@@ -418,7 +422,7 @@ CANARIES["copy_shares_function_objects"] = _canary_copy_shares_functions
 def obligations(tier):
     thorough = tier == "thorough"
     obs = []
-    rids = ["R2", "R3", "R5", "R7", "R9"] + (["R1", "R4", "R8", "R10"] if thorough else [])
+    rids = ["R2", "R3", "R5", "R7", "R9", "R19"] + (["R1", "R4", "R8", "R10"] if thorough else [])
     singles = [(op,) for op in REWRITES]
     pairs = [("copy", "rename"), ("rename", "scope"), ("join", "rename"), ("scope", "pickle"), ("pickle", "or"), ("scope_roundtrip", "rename")]
     triples = [("copy", "rename", "scope"), ("join", "scope", "pickle"), ("rename", "or", "scope_roundtrip")]
@@ -453,10 +457,10 @@ def obligations(tier):
             )
 
         obs.append(
-            Ob(f"addaxis_{rid}", [("n0", I), ("m", I)] + VALS, ["1 <= n0 <= 3", "m == 0"], f"H.add_axis({rid!r}, n0, m, {VARGS})", timeout=300,
+            Ob(f"addaxis_{rid}", [("n0", I), ("m", I)] + VALS, ["1 <= n0 <= 3", "0 <= m <= 1"], f"H.add_axis({rid!r}, n0, m, {VARGS})", timeout=300,
                bounds=f"{rid}: add_mapspec_axis on the first root argument, axis length 1..3; every dependent output lifted pointwise, others unchanged")  # fmt: skip
         )
-    for rid in ("R12", "R13", "R14", "R2", "R3", "R7"):
+    for rid in ("R12", "R13", "R14", "R18", "R2", "R3", "R7"):
         obs.append(
             Ob(f"simplify_{rid}", [("conservative", "bool")] + VALS, [], f"H.simplify({rid!r}, conservative, {VARGS})", timeout=200,
                bounds=f"{rid}: simplified_pipeline (both conservatively_combine values)")  # fmt: skip
